@@ -3,9 +3,20 @@
 the `checks` / `caught_by` fields of /verif/seeded/<id>/meta.json; prints a table."""
 import os, sys, json, subprocess, glob
 rows = []
-for d in sorted(glob.glob('/verif/seeded/*/')):
+from concurrent.futures import ThreadPoolExecutor
+dirs = sorted(glob.glob('/verif/seeded/*/'))
+if len(sys.argv) > 1:
+    dirs = [d for d in dirs if any(a in d for a in sys.argv[1:])]
+
+
+def _run(d):
+    return subprocess.run(['/venv/bin/python', '/verif/tools/try_seed.py', d + 'patch.diff'], capture_output=True, text=True)
+
+
+with ThreadPoolExecutor(3) as ex:
+    evs = list(ex.map(_run, dirs))
+for d, ev in zip(dirs, evs):
     meta = json.load(open(d + 'meta.json'))
-    ev = subprocess.run(['/venv/bin/python', '/verif/tools/try_seed.py', d + 'patch.diff'], capture_output=True, text=True)
     summ = [l for l in ev.stdout.split('\n') if l.startswith('SUMMARY')]
     status = json.loads(summ[0][8:]) if summ else {}
     meta['checks'] = status
